@@ -1,6 +1,7 @@
 //! `vh` — the Rust side of /verif: drivers that run the real samlang code and record
 //! traces for the TLA+ specifications, and replayers for TLC-generated behaviours.
 mod astdump;
+mod comments;
 mod compile;
 mod edits;
 mod exec;
@@ -24,6 +25,10 @@ fn main() {
   let rest = &args[2.min(args.len())..];
   match cmd {
     "ast-dump" => astdump::main(rest),
+    "comments-run" => comments::run(rest),
+    "comments-files" => comments::files(rest),
+    "comments-one" => comments::one(rest),
+    "comments-label" => comments::label(rest),
     "compile" => compile::main(rest),
     "mir-dump" => compile::mir_dump_main(rest),
     "mir-types" => compile::mir_types_main(rest),
